@@ -35,6 +35,15 @@ BAD = [
     '<svg><loop while="1"><rect wh="1"/></loop></svg>',
     '<svg><rect wh="{{1 +}}"/></svg>',
 ]
+# the same bytes must mean the same to every front-end: line endings, declarations, BOM-less
+# UTF-8, entity references, real SVG, fragments
+LEXICAL = [
+    '<svg>\r\n  <rect wh="4" text="a&#13;&#10;b" data-x="l1\r\nl2"/>\r\n  <!-- c1\r\nc2 -->\r\n  <text xy="0 9"><![CDATA[x\r\ny]]></text>\r\n</svg>\r\n',
+    '<?xml version="1.0" encoding="UTF-8"?>\n<svg>\n\t<rect wh="3" text="t&amp;b &lt;é&gt; \u65e5\u672c"/>\n</svg>\n',
+    '<svg xmlns="http://www.w3.org/2000/svg" width="5" height="5">\r\n<rect width="2" height="2" class="a  b"/>\r\n</svg>',
+    '<svg><rect wh="2" _="comment\r\nwith lines"/><rect xy="^|h" wh="2" style="fill: red;\r\n stroke: blue"/></svg>',
+    '<rect wh="3"/>\r\n<rect xy="^|v 1" wh="3"/>\r\n',
+]
 EMPTY_OK = ['<specs><rect id="q" wh="1"/></specs>']
 
 
@@ -63,7 +72,7 @@ def run(rep, tier, seed):
             raise vlib.ToolError(f"negative control {dev}: TLC reported {rn.violated}")
 
     svgdx, server_bin = vlib.build_bins()
-    docs = list(GOOD) + list(BAD) + list(EMPTY_OK)
+    docs = list(GOOD) + list(LEXICAL) + list(BAD) + list(EMPTY_OK)
     for f in sorted(glob.glob(os.path.join(vlib.REPO, "examples", "*.xml")))[: (20 if big else 6)]:
         docs.append(open(f, encoding="utf-8").read())
     cfgs = [{}, {"add_metadata": True}, {"seed": 7, "theme": "dark"}, {"debug": True, "border": 9},
@@ -72,7 +81,7 @@ def run(rep, tier, seed):
             {"theme": "bold"}, {"theme": "glass"}, {"add_auto_styles": False}, {"svg_style": "max-width: 100%"}, {"seed": 99}]
     keys = [(d, c) for d in docs for c in cfgs]
     # T measured by fresh library processes (one process per key batch)
-    cases = [{"k": f"t{j}", "xml": d, "cfg": c} for j, (d, c) in enumerate(keys)]
+    cases = [{"k": f"t{j}", "xml": d, "cfg": c, "str_api": True} for j, (d, c) in enumerate(keys)]
     tres = vlib.run_isolated(cases)      # one fresh process per key: T has no history
     events = []
     T = {}
@@ -86,6 +95,14 @@ def run(rep, tier, seed):
         T[key] = ev
         events.append(ev)
     ops = []
+    # the string function next to the stream function (T is measured through the stream function)
+    for j, (d, c) in enumerate(keys):
+        sr = tres[f"t{j}"].get("str_api")
+        if sr is None:
+            continue
+        st = "ok" if sr["status"] == "ok" else "fail"
+        ops.append(({"e": "op", "fe": "lib-str", "key": frontc.key_of(d, c), "status": st, "hash": frontc.h(sr.get("out")) if st == "ok" else "-",
+                     "before": "-", "after": "-", "samefile": False}, {"xml": d, "cfg": c, "api": "transform_str"}))
     # (a) the library: many different transforms at once in one process
     conc = [{"xml": d, "cfg": c} for (d, c) in keys]
     rnd.shuffle(conc)
